@@ -18,9 +18,38 @@ func (w *World) commitOnce(flavour string, workers int) error {
 		workers = 1
 	}
 	if flavour == "nfc" {
+		if workers > 1 && w.Ledger.plan != nil && !inBubble && TestingT != nil && atree.VerifYield == nil {
+			// The order-relaxed commit stores slabs in the order in which its workers deliver them.  With a
+			// positional write fault (or a crash at the k-th write) armed, which stores land before the fault
+			// would depend on the real scheduling of the worker goroutines - the one thing a run must not
+			// depend on.  Such an attempt runs under the seeded scheduler: the arrival order becomes a function
+			// of the trace.
+			return w.scheduledNFC(workers)
+		}
 		return w.Storage.NondeterministicFastCommit(workers)
 	}
 	return w.Storage.FastCommit(workers)
+}
+
+func (w *World) scheduledNFC(workers int) error {
+	s := NewSched("random", NewRng(0x9e3779b97f4a7c15^uint64(w.Commits)<<20^uint64(w.Ledger.seq)))
+	atree.VerifYield = func(site string, id atree.SlabID) { s.Yield(site + ":" + RegIDOf(id).String()) }
+	var err error
+	var pv any
+	live := s.RunBubble(TestingT, []func(){func() {
+		defer func() { pv = recover() }()
+		err = w.Storage.NondeterministicFastCommit(workers)
+	}})
+	atree.VerifYield = nil
+	w.Stats.Add("sched.worker-decisions", s.Decisions)
+	w.Stats.Inc("sched.faulted-nfc-under-scheduler")
+	if pv != nil {
+		panic(pv) // the simulated crash (or a library panic) continues on the caller's goroutine
+	}
+	if live != nil && err == nil {
+		err = fmt.Errorf("order-relaxed commit under the scheduler: %v", live)
+	}
+	return err
 }
 
 // execCommit performs a commit (with optional fault plan and retries) and
